@@ -48,12 +48,12 @@ import (
 type storeOp struct {
 	Kind string `json:"kind"` // create | delete-query | patch
 	// Via: rest | grpc | grpc-deprecated (delete-query only) | mgr
-	Via    string                 `json:"via"`
-	Flaw   string                 `json:"flaw,omitempty"` // why the model expects a rejection ("" = valid)
+	Via  string `json:"via"`
+	Flaw string `json:"flaw,omitempty"` // why the model expects a rejection ("" = valid)
 	// Fault: a statement failure injected BELOW keto while the request runs (SQLite
 	// trigger on the relationship table): insert | delete | both. The request may
 	// fail (no effect) or succeed (the failing statement was not needed).
-	Fault string `json:"fault,omitempty"`
+	Fault  string                 `json:"fault,omitempty"`
 	Tuple  *Tup                   `json:"tuple,omitempty"`
 	Query  *ketoapi.RelationQuery `json:"query,omitempty"`
 	Deltas []*ketoapi.PatchDelta  `json:"deltas,omitempty"`
